@@ -41,6 +41,7 @@ type CycleInfo struct {
 	Ctl       *Control
 	Domain    bool   // this cycle (or its action replay) is outside the modelled domain
 	DomainMsg string
+	ActStart  int64 // stamp of the moment the last ExecuteRuleEntry listener returned (the action list may start)
 	ActSeqLo  int64 // stamp of the setrule event
 	ActSeqHi  int64 // stamp of the iscomplete event (0 if none)
 }
@@ -107,6 +108,10 @@ func Analyze(prog *Program, res *RunResult, cfg RunCfg, removed map[string]bool)
 				a.Stray = append(a.Stray, fmt.Sprintf("%s carries cycle %d inside cycle %d", e, e.Cycle, cur.N))
 			}
 			cur.Execs = append(cur.Execs, e.Rule)
+		case "execdone":
+			if cur != nil {
+				cur.ActStart = e.Seq
+			}
 		case "iscomplete":
 			if cur == nil || len(cur.SetRules) == 0 {
 				a.Stray = append(a.Stray, "IsComplete without a firing")
